@@ -1,8 +1,9 @@
 """C11 — requested metadata is reproduced at the destination."""
 import p_recv
+import p_sync
 from vlib import Broken, Verdict
 
-JUDGE = ("type", "target", "perm", "mtime")
+JUDGE = ("type", "target", "perm", "mtime", "owner")
 
 
 def sig(o, s):
@@ -10,7 +11,7 @@ def sig(o, s):
     opts = o.get("opts", {})
     return {"kind": "crash" if str(o.get("err", "")).startswith("CRASHED") else ("error" if o.get("result") != "ok" else "mismatch"),
             "p": opts.get("p"), "t": opts.get("t"), "l": opts.get("l"),
-            "diff": sorted({d[1] for d in diff if d[1] in ("type", "target", "perm", "mtime", "missing", "unexpected")}),
+            "diff": sorted({d[1] for d in diff if d[1] in ("type", "target", "perm", "mtime", "missing", "unexpected", "owner")}), "o": opts.get("o"),
             "where": sorted({("dir" if any(e["name"] == d[0] and e["t"] == "dir" for e in o.get("list", [])) else "file") for d in diff})}
 
 
@@ -23,13 +24,37 @@ def check(w):
     counts = {"traces": 0, "trace_states": 0}
     obs, rej = p_recv.run_validate_confirm(w, "c11", scen, "c11", v, counts, sig, judge=JUDGE)
     nneg = p_recv.negative_controls(w, "c11", obs, rej, w.seed)
+    # ---- the REAL sender on the other end, with TWO source arguments (everything below "d" comes from the second one):
+    #      the sender's "same as the previous entry" state must not leak from one source argument into the next.  The last
+    #      entry of the first source is owned by 1234:4321, the second source starts with root-owned entries.
+    import random as _r
+    rnd2 = _r.Random(w.seed + 5)
+    pool = [s for s in scen if s["opts"].get("o")]
+    lines = []
+    for sc in rnd2.sample(pool, min(len(pool), 24 if w.tier == "quick" else 200)):
+        src = [dict(p=e["name"], **{x: e[x] for x in ("t", "c", "sz", "mt", "perm", "tgt", "uid", "gid")}, ns=0) for e in sc["list"] if e["name"] != "."]
+        for n in src:
+            if n["p"] == "ro/f":
+                n["uid"], n["gid"] = 1234, 4321
+            if n["p"] in ("d", "d/f"):
+                n["uid"], n["gid"] = 0, 0
+        e2e = {"family": "c11", "universe": sc["universe"], "src": src, "dst": [n for n in sc["dst"] if n["p"] != "."], "opts": sc["opts"], "rules": []}
+        for arr in ("local", "push"):
+            for form in ("multi", "slash"):
+                lines.append(p_sync.mk_line(e2e, arr, JUDGE, form=form))
+    ecounts = {}
+    eobs, erej = p_sync.run_validate_confirm(w, "c11", lines, "c11-e2e", v, ecounts,
+                                             lambda o: {"kind": "e2e-" + ("error" if o["result"] != "ok" else "mismatch"), "arr": o["arr"], "form": o["form"], "o": o["opts"].get("o")})
     nontriv = sum(1 for o in obs if any(o["opts"][k] for k in ("p", "t", "l")))
+    chowned = sum(1 for o in obs if o["opts"].get("o") and any(n.get("uid") == 1234 for n in o["final"]))
+    if chowned < 10:
+        raise Broken("vacuous: only %d runs with -o ended with a destination entry owned by the source's uid" % chowned)
     v.coverage = {
         "states": r["distinct"], "transitions": r["generated"],
         "traces_validated_against_impl": counts["traces"], "trace_states": counts["trace_states"], "exhaustive": w.tier == "thorough",
         "samples": [{"list": o["list"], "opts": o["opts"], "recv": o["recv"], "final": o["final"], "result": o["result"]} for o in obs[:1]],
-        "scenarios": len(scen), "evaluations": len(obs), "distinct_nontrivial": nontriv,
-        "rule": "attribute classes (file perms 0000/0400/0555/0644/0777/0200, dir perms 0755/0555/0700/0500, mtimes -2e9, -2, 1, 1000, 2e9) x all subsets of {-p,-t,-l,-c} with -D, files, directories, a symlink, a fifo and a character device, x prior destination {absent, present with other attributes}, "
+        "scenarios": len(scen), "evaluations": len(obs), "distinct_nontrivial": nontriv, "runs_with_foreign_owner_applied": chowned, "end_to_end_runs_with_two_sources": len(eobs),
+        "rule": "attribute classes (file perms 0000/0400/0555/0644/0777/0200, dir perms 0755/0555/0700/0500, mtimes -2e9, -2, 1, 1000, 2e9) x all subsets of {-p,-t,-l,-c} x {-o -g on/off; sources owned by 1234:4321, 1234:0, 0:4321} with -D, files, directories, a symlink, a fifo and a character device, x prior destination {absent, present with other attributes}, "
                 "incl. a read-only directory with content; non-trivial = at least one preserve option on",
         "action_coverage": cov, "negative_controls": nneg, "worker_crashes": counts.get("crashed", 0),
     }
